@@ -270,6 +270,9 @@ func zero(t types.Type) value {
 
 // slice returns x[lo:hi:max].  Any of lo, hi and max may be nil.
 func (i *interpreter) slice(x, lo, hi, max value) value {
+	if nt, ok := x.(numtext); ok {
+		x = nt.expand()
+	}
 	var Len, Cap int
 	switch x := x.(type) {
 	case string:
@@ -352,6 +355,12 @@ func (i *interpreter) binop(op token.Token, t types.Type, x, y value) value {
 	}
 	if op == token.NEQ {
 		return i.vnot(i.eqnil(t, x, y))
+	}
+	if nt, ok := x.(numtext); ok {
+		x = nt.expand()
+	}
+	if nt, ok := y.(numtext); ok {
+		y = nt.expand()
 	}
 	if _, ok := x.(symstr); ok {
 		return i.strBinop(op, x, y)
@@ -991,6 +1000,9 @@ func (i *interpreter) callBuiltin(caller *frame, callpos token.Pos, fn *ssa.Buil
 		if len(args) == 1 {
 			return args[0]
 		}
+		if nt, ok := args[1].(numtext); ok {
+			args[1] = nt.expand()
+		}
 		if s, ok := args[1].(symstr); ok {
 			arg0 := args[0].([]value)
 			return append(arg0, []value(s)...)
@@ -1061,6 +1073,9 @@ func (i *interpreter) callBuiltin(caller *frame, callpos token.Pos, fn *ssa.Buil
 		return nil
 
 	case "len":
+		if nt, ok := args[0].(numtext); ok {
+			args[0] = nt.expand()
+		}
 		switch x := args[0].(type) {
 		case string:
 			return len(x)
@@ -1151,6 +1166,9 @@ func (i *interpreter) callBuiltin(caller *frame, callpos token.Pos, fn *ssa.Buil
 }
 
 func (i *interpreter) rangeIter(x value, t types.Type) iter {
+	if nt, ok := x.(numtext); ok {
+		x = nt.expand()
+	}
 	switch x := x.(type) {
 	case *omap:
 		return x.rangeIter(i)
